@@ -48,7 +48,7 @@ def build_pkg(case):
     from vf.gen.extensions import build_extension
     from vf.interp import Interp
 
-    return Package([Interp().run(p) for p in case["modules"]], [build_extension(e) for e in case["extensions"]])
+    return Package([Interp().run(p) for p in case["modules"]], [build_extension(e, eager=len(e["name"]) % 2 == 0) for e in case["extensions"]])
 
 
 def _is_value_error(name):
@@ -78,8 +78,22 @@ def check_roundtrip(ctx, case, stratum="roundtrip"):
     def bad(kind, locus, exp, obs):
         ctx.disc(None, kind, locus, exp, obs, stratum=stratum, case=case)
 
+    # one configuration object used for level after level (its `zstd` field re-assigned) in every other case: what an
+    # earlier encoding did with it must not stick
+    reuse_cfg = len(case["modules"]) % 2 == 0
+    shared_cfg = None
     for z in case["zstd"]:
-        cfg = EnvelopeConfig(format=EnvelopeFormat.JSON, zstd=z)
+        if reuse_cfg and shared_cfg is not None:
+            ctx.count("monitor:config-object-reused")
+            try:
+                shared_cfg.zstd = z
+                cfg = shared_cfg
+            except Exception:  # noqa: BLE001  (a frozen configuration cannot be re-used this way)
+                ctx.count("observed:config-not-assignable")
+                cfg = EnvelopeConfig(format=EnvelopeFormat.JSON, zstd=z)
+        else:
+            cfg = EnvelopeConfig(format=EnvelopeFormat.JSON, zstd=z)
+            shared_cfg = cfg
         raw = pkg.to_bytes(cfg)
         ctx.count("monitor:header-bits")
         if z is not None:
